@@ -3,12 +3,41 @@
   `Dev.step` / `Dev.cleanup` on event lines.
 -/
 import Hidi.Proto
+import Hidi.Spec
 namespace Hidi
+
+inductive Pend | none | cfgEnd | ev (e : Ev) | disc
+  deriving Inhabited
 
 structure DevSt where
   cfg : Config := default
   dev : Dev := default
+  /-- the observed (implementation) trace of the current case, steps in reverse -/
+  obsInit : Spec.StObs := default
+  obsSteps : List Spec.Step := []
+  obsCleanup : Option (List Out) := none
+  /-- the model's own trace of the current case, steps in reverse -/
+  modSteps : List Spec.Step := []
+  modCleanup : Option (List Out) := none
+  pend : Pend := .none
   deriving Inhabited
+
+def parseOut (s : String) : Out :=
+  if s = "SIG" then .sig else if s = "PANIC" then .panic else
+  match unhexBytes s with
+  | [a, b, c] => .midi a b c
+  | _ => .panic
+
+/-- parse `<msgs> | o s c m n` -/
+def parseObs (toks : List String) : List Out × Spec.StObs :=
+  let msgs := toks.takeWhile (· ≠ "|")
+  let rest := (toks.dropWhile (· ≠ "|")).drop 1
+  let outs := (msgs.filter (· ≠ "ok")).map parseOut
+  match rest with
+  | [o, se, c, m, n] => (outs, ⟨tokInt o, tokInt se, tokNat c, tokNat m, tokNat n⟩)
+  | _ => (outs, default)
+
+def failTok (f : Spec.Fail) : String := s!"{f.prop}:{f.step}:{f.clause}"
 
 def emptyMapping (name : String) : Mapping := { name := name, midi := [], analog := [], dz := [], defDz := [] }
 
@@ -53,22 +82,46 @@ def DevSt.line (s : DevSt) (toks : List String) : DevSt × Option String :=
     ({ s with cfg := { s.cfg with exitSeq := codes.map tokNat } }, none)
   | ["cfg.axis", node, code, mn, mx] =>
     ({ s with cfg := { s.cfg with axes := ainsert (node, tokNat code) (tokInt mn, tokInt mx) s.cfg.axes } }, none)
-  | ["cfg.end"] => ({ s with dev := Dev.init s.cfg }, some "ok")
+  | ["cfg.end"] =>
+    let d := Dev.init s.cfg
+    ({ s with dev := d, obsSteps := [], obsCleanup := none, modSteps := [], modCleanup := none,
+              pend := .cfgEnd }, some s!"ok | {d.stateLine}")
+  | "obs" :: rest =>
+    let (outs, st) := parseObs rest
+    match s.pend with
+    | .cfgEnd => ({ s with obsInit := st, pend := .none }, none)
+    | .ev e => ({ s with obsSteps := ⟨e, outs, st⟩ :: s.obsSteps, pend := .none }, none)
+    | .disc => ({ s with obsCleanup := some outs, pend := .none }, none)
+    | .none => (s, none)
+  | ["endcase"] =>
+    let obsT : Spec.Trace := ⟨s.cfg, s.obsInit, s.obsSteps.reverse, s.obsCleanup⟩
+    let modT : Spec.Trace := ⟨s.cfg, Spec.StObs.ofDev (Dev.init s.cfg), s.modSteps.reverse, s.modCleanup⟩
+    let fo := Spec.checkTrace obsT
+    let fm := Spec.checkTrace modT
+    (s, some s!"mon impl={" ".intercalate (fo.map failTok)} ; model={" ".intercalate (fm.map failTok)}")
   | ["key", sub, code, val] =>
-    let (d, o) := s.dev.step (.key (tokSub sub) (tokNat code) (tokInt val))
-    ({ s with dev := d }, some s!"{outsLine o} | {d.stateLine}")
+    let e : Ev := (.key (tokSub sub) (tokNat code) (tokInt val))
+    let (d, o) := s.dev.step e
+    ({ s with dev := d, pend := .ev e, modSteps := ⟨e, o, Spec.StObs.ofDev d⟩ :: s.modSteps },
+     some s!"{outsLine o} | {d.stateLine}")
   | ["abs", sub, node, code, val] =>
-    let (d, o) := s.dev.step (.abs (tokSub sub) node (tokNat code) (tokInt val))
-    ({ s with dev := d }, some s!"{outsLine o} | {d.stateLine}")
+    let e : Ev := (.abs (tokSub sub) node (tokNat code) (tokInt val))
+    let (d, o) := s.dev.step e
+    ({ s with dev := d, pend := .ev e, modSteps := ⟨e, o, Spec.StObs.ofDev d⟩ :: s.modSteps },
+     some s!"{outsLine o} | {d.stateLine}")
   | ["syn"] =>
-    let (d, o) := s.dev.step .syn
-    ({ s with dev := d }, some s!"{outsLine o} | {d.stateLine}")
+    let e : Ev := .syn
+    let (d, o) := s.dev.step e
+    ({ s with dev := d, pend := .ev e, modSteps := ⟨e, o, Spec.StObs.ofDev d⟩ :: s.modSteps },
+     some s!"{outsLine o} | {d.stateLine}")
   | ["midiin", a, b, c] =>
-    let (d, _) := s.dev.step (.midiIn (tokNat a) (tokNat b) (tokNat c))
-    ({ s with dev := d }, some "ok")
+    let e : Ev := .midiIn (tokNat a) (tokNat b) (tokNat c)
+    let (d, o) := s.dev.step e
+    ({ s with dev := d, pend := .ev e, modSteps := ⟨e, o, Spec.StObs.ofDev d⟩ :: s.modSteps },
+     some s!" | {d.stateLine}")
   | ["disconnect"] =>
     let (d, o) := s.dev.cleanup
-    ({ s with dev := d }, some s!"{outsLine (sortOuts o)} | {d.stateLine}")
+    ({ s with dev := d, pend := .disc, modCleanup := some o }, some s!"{outsLine (sortOuts o)} | {d.stateLine}")
   | _ => (s, some "bad-op")
 
 end Hidi
